@@ -313,3 +313,50 @@ def operations_follow_inplace_moves(S, op, how):
                           seq(box_area(B1) + box_area(B2), box_area(A))))
     elif op == "x_cuttable":
         S.ensure(nm, simplies(v, sand(A[0] < b.center.x, b.center.x < A[2])))
+
+
+from vf import loopcut, loopshape  # noqa: E402
+
+
+@contract(P, functions=[G + "rectangle_grid"], note="loop cut: both range loops replaced by one arbitrary (row, col); rows and columns SYMBOLIC")
+def rectangle_grid_any_size(S):
+    """rectangle_grid(nrows, ncols) for symbolic nrows, ncols >= 1: the two nested `for .. in range(..)` loops (a flat map over
+    index pairs; shape checked on the AST) are cut to one arbitrary iteration (row, col).  The piece produced there is the grid
+    cell (row, col) with the rectangle's attributes; distinct index pairs give interior-disjoint cells inside the rectangle
+    (lemma), nrows*ncols cells of area (w/ncols)*(h/nrows) sum to w*h."""
+    sh = loopshape.flatmap_shape(Rectangle.rectangle_grid, 0, accumulators=["grid"])
+    reg = S.choice("reg", ["_", "A"])
+    r = mk_rect(S, "r", reg)
+    nr, nc = S.int("nrows"), S.int("ncols")
+    idx = {}
+
+    def arb(name, bound):
+        v = S.int("idx_" + name) if S.mode == "sym" else S.int("idx_" + name)
+        S.assume(sand(v >= 0, v < bound))
+        idx[name] = v
+        return v
+    cut, info = loopcut.one_arbitrary_iteration_of_range_loops(Rectangle.rectangle_grid, arb)
+    S.cover("loop-cut: " + str(info["loops"]))
+    out = S.call(cut, r, nr, nc)
+    S.ensure("grid.rejects_exactly_nonpositive_counts", siff(out.raised(AssertionError), sor(nr <= 0, nc <= 0)))
+    if not out.ok:
+        S.ensure("grid.only_assertion_errors", out.raised(AssertionError))
+        return
+    g = out.value
+    S.ensure("grid.one_piece_per_index_pair", len(g) == 1 and set(idx) == {"row", "col"})
+    if len(g) != 1:
+        return
+    p = g[0]
+    row, col = idx["row"], idx["col"]
+    R = box(r)
+    sx, sy = r.shape.w / nc, r.shape.h / nr
+    cell = (R[0] + col * sx, R[1] + row * sy, R[0] + (col + 1) * sx, R[1] + (row + 1) * sy)
+    S.ensure("grid.piece_is_the_grid_cell_of_its_index_pair", box_eq(box(p), cell))
+    S.ensure("grid.piece_inherits_attributes_and_is_a_new_object", attrs_eq(p, r) and p is not r)
+    S.ensure("grid.piece_inside_the_rectangle", box_inside(box(p), R))
+    # lemma: another index pair gives a cell with a disjoint interior; equal-area cells sum to the area
+    row2, col2 = S.int("row2"), S.int("col2")
+    S.assume(sand(row2 >= 0, row2 < nr, col2 >= 0, col2 < nc, sor(row2 < row, row2 > row, col2 < col, col2 > col)))
+    cell2 = (R[0] + col2 * sx, R[1] + row2 * sy, R[0] + (col2 + 1) * sx, R[1] + (row2 + 1) * sy)
+    S.ensure("grid.cells_of_distinct_index_pairs_have_disjoint_interiors", interiors_disjoint(cell, cell2))
+    S.ensure("grid.cell_areas_sum_to_the_area", seq((nr * nc) * (sx * sy), r.shape.w * r.shape.h))
